@@ -73,7 +73,13 @@ Arm(r) ==
   LET r1 == LCG(r)  r2 == LCG(r1)  r3 == LCG(r2)
       s1 == (r1 % 4) + 1  s2 == (r2 % 4) + 1 IN
   [sts |-> IF (r3 % 3) = 0 /\ s1 # s2 THEN <<s1, s2>> ELSE <<s1>>,
-   body |-> IF (r3 % 4) = 0 THEN <<SentenceK(r2), SentenceK(LCG(r3))>> ELSE <<SentenceK(r2)>>]
+   \* a bracketed (merged) body: two independent sentences, or - one time in two - a second member with exactly the
+   \* first one's timing arguments that sets the same property again (later members win on shared properties)
+   body |-> IF (r3 % 4) = 0
+            THEN (IF (r3 % 8) = 0 THEN <<SentenceK(r2), SentenceK(LCG(r3))>>
+                  ELSE <<SentenceK(r2), NoKf(SentenceK(r2)) \o <<[k |-> "kf", pos |-> 100, form |-> "pct", dflt |-> FALSE,
+                                                                  d |-> <<<<Pick(ValX, r3) + 3>>, <<>>, <<>>, <<>>>>]>>>>)
+            ELSE <<SentenceK(r2)>>]
 RECURSIVE Arms(_, _)
 Arms(r, n) == IF n = 0 THEN <<>> ELSE <<Arm(r)>> \o Arms(LCG(LCG(LCG(LCG(LCG(r))))), n - 1)
 
